@@ -7,12 +7,14 @@
 EXTENDS Resolver, Json, IOUtils
 
 Traces == ndJsonDeserialize(IOEnv.TRACE_FILE)
-VARIABLE t
+VARIABLES t,
+          kinds   \* history: which outcomes of a pair comparison occurred while replaying this list (coverage evidence)
 
 SegOf(tr, k) == [pos |-> tr.ins[k].pos, ix |-> [j \in 1..Len(tr.ins[k].pos) |-> j], src |-> k, peak |-> tr.ins[k].peak]
 Init == \E k \in 1..Len(Traces) :
            /\ t = k
            /\ InitWith([j \in 1..Len(Traces[k].chain) |-> SegOf(Traces[k], Traces[k].chain[j])])
+           /\ kinds = {}
 
 Verdict ==
     LET tr     == Traces[t]
@@ -21,9 +23,10 @@ Verdict ==
         drift  == IF tr.status = "ok" /\ status = "done" /\ Obs(chain) = tr.obs THEN {}
                   ELSE IF tr.status # "ok" /\ status = "aborted" THEN {}
                   ELSE {"resolved_segments_differ_from_spec"}
-    IN IF failed \cup drift = {} THEN TRUE ELSE PrintT(ToString(<<"V", t, failed, drift>>))
+    IN /\ (IF failed \cup drift = {} THEN TRUE ELSE PrintT(ToString(<<"V", t, failed, drift>>)))
+       /\ (IF kinds \subseteq {"", "NoConflict", "NoConflict_LeftEmpty"} THEN TRUE ELSE PrintT(ToString(<<"K", t, kinds>>)))
 
-Report == Done /\ Verdict /\ status' = "reported" /\ UNCHANGED <<chain, i1, i0, lastKind, t>>
-Terminated == status = "reported" /\ UNCHANGED <<resvars, t>>
-Next == (ResNext /\ UNCHANGED t) \/ Report \/ Terminated
+Report == Done /\ Verdict /\ status' = "reported" /\ UNCHANGED <<chain, i1, i0, lastKind, t, kinds>>
+Terminated == status = "reported" /\ UNCHANGED <<resvars, t, kinds>>
+Next == (ResNext /\ kinds' = kinds \cup {lastKind'} /\ UNCHANGED t) \/ Report \/ Terminated
 =============================================================================
